@@ -560,7 +560,7 @@ package mast
 // Unchanged: the observable state of tree m is what it was: root, size, height, thresholds, and every
 // node that existed keeps its three sequences
 //@ smt (define-fun MastSame ((h0 Heap) (h Heap) (m Int)) Bool (and (= (Mast.root h m) (Mast.root h0 m)) (= (Mast.size h m) (Mast.size h0 m)) (= (Mast.height h m) (Mast.height h0 m)) (= (Mast.growAfterSize h m) (Mast.growAfterSize h0 m)) (= (Mast.shrinkBelowSize h m) (Mast.shrinkBelowSize h0 m))))
-//@ smt (define-fun NodesSame ((h0 Heap) (h Heap) (w Int)) Bool (forall ((r Int)) (! (=> (<= r w) (and (= (Node.Key h r) (Node.Key h0 r)) (= (Node.Value h r) (Node.Value h0 r)) (= (Node.Link h r) (Node.Link h0 r)))) :pattern ((Node.Key h r)) :pattern ((Node.Value h r)) :pattern ((Node.Link h r)))))
+//@ smt (define-fun NodesSame ((h0 Heap) (h Heap) (w Int)) Bool (forall ((r Int)) (! (=> (and (< 0 r) (<= r w)) (and (= (Node.Key h r) (Node.Key h0 r)) (= (Node.Value h r) (Node.Value h0 r)) (= (Node.Link h r) (Node.Link h0 r)))) :pattern ((Node.Key h r)) :pattern ((Node.Value h r)) :pattern ((Node.Link h r)))))
 
 //@ func (*Mast).Insert
 //@ tags C01 C02 C04 C09 C11 C12 C13 C16
@@ -863,7 +863,8 @@ package mast
 //@ modifies W Map.Int.Any Map.Int.Any.has Arr.S_iterItem@fresh diffState.*@fresh iterItemStack.*@fresh
 //@ requires nn (> newMast 0)
 //@ ensures res [C06 C07] (and (> result W0) (= (diffState.oldMast H result) oldMast) (isNil (diffState.curKey H result)) (isNil (diffState.addedLink H result)) (isNil (diffState.removedLink H result)) (> (diffState.alreadyNotifiedOldLink H result) 0) (> (diffState.alreadyNotifiedNewLink H result) 0))
-//@ ensures stacks [C06 C07] (and (<= (stackLen H (inner result fid.diffState.oldStack)) 1) (<= (stackLen H (inner result fid.diffState.newStack)) 1) (StackOKnil H (inner result fid.diffState.newStack)) (StackOKnil H (inner result fid.diffState.oldStack)))
+//@ ensures stacks [C06 C07] (and (<= (stackLen H (inner result fid.diffState.oldStack)) 1) (<= (stackLen H (inner result fid.diffState.newStack)) 1) (StackOKnil H (inner result fid.diffState.newStack)) (StackOKnil H (inner result fid.diffState.oldStack)) (=> (= oldMast 0) (= (stackLen H (inner result fid.diffState.oldStack)) 0)))
+//@ ensures tops [C15 C06] (and (=> (not (isNil (Mast.root H0 newMast))) (and (= (stackLen H (inner result fid.diffState.newStack)) 1) (= (S_iterItem.considerLink (itemAt H (inner result fid.diffState.newStack) 0)) (Mast.root H0 newMast)))) (=> (and (> oldMast 0) (not (isNil (Mast.root H0 oldMast)))) (and (= (stackLen H (inner result fid.diffState.oldStack)) 1) (= (S_iterItem.considerLink (itemAt H (inner result fid.diffState.oldStack) 0)) (Mast.root H0 oldMast)))))
 
 //@ smt (define-fun oStack ((dc Int)) Int (inner dc fid.diffState.oldStack))
 //@ smt (define-fun nStack ((dc Int)) Int (inner dc fid.diffState.newStack))
@@ -883,7 +884,7 @@ package mast
 //@ requires cfg (DiffCfg H m dc)
 //@ requires reset [C06 C07] (DiffReset H dc)
 //@ requires stacks [T3] (and (StackOK H (oStack dc)) (StackOK H (nStack dc)) (AllOK H))
-//@ ensures done [C06] (=> (and (= (stackLen H0 (oStack dc)) 0) (= (stackLen H0 (nStack dc)) 0)) (= err (G.ErrNoMoreDiffs H0)))
+//@ ensures done [C06] (=> (and (= (stackLen H0 (oStack dc)) 0) (= (stackLen H0 (nStack dc)) 0)) (and (= err (G.ErrNoMoreDiffs H0)) (= (G.loads H) (G.loads H0))))
 //@ ensures added [C07] (and (=> (= (stackLen H0 (nStack dc)) 0) (isNil (diffState.addedLink H dc))) (=> (> (stackLen H0 (nStack dc)) 0) (or (isNil (diffState.addedLink H dc)) (= (diffState.addedLink H dc) (S_iterItem.considerLink (topOf H0 (nStack dc)))))))
 //@ ensures removed [C07] (and (=> (= (stackLen H0 (oStack dc)) 0) (isNil (diffState.removedLink H dc))) (=> (> (stackLen H0 (oStack dc)) 0) (or (isNil (diffState.removedLink H dc)) (= (diffState.removedLink H dc) (S_iterItem.considerLink (topOf H0 (oStack dc)))))))
 //@ ensures notboth [C06] (not (and (diffState.hasAdd H dc) (diffState.hasRemove H dc)))
@@ -892,3 +893,53 @@ package mast
 //@ ensures both [C06] (=> (and (= err anil) (> (stackLen H0 (oStack dc)) 0) (> (stackLen H0 (nStack dc)) 0) (isYield (topOf H0 (oStack dc))) (isYield (topOf H0 (nStack dc)))) (and (=> (< (ord (yKey (topOf H0 (oStack dc))) (yKey (topOf H0 (nStack dc)))) 0) (and (diffState.hasRemove H dc) (= (stackLen H (nStack dc)) (stackLen H0 (nStack dc))) (= (stackLen H (oStack dc)) (- (stackLen H0 (oStack dc)) 1)))) (=> (> (ord (yKey (topOf H0 (oStack dc))) (yKey (topOf H0 (nStack dc)))) 0) (and (diffState.hasAdd H dc) (= (stackLen H (oStack dc)) (stackLen H0 (oStack dc))) (= (stackLen H (nStack dc)) (- (stackLen H0 (nStack dc)) 1)))) (=> (= (ord (yKey (topOf H0 (oStack dc))) (yKey (topOf H0 (nStack dc)))) 0) (and (not (diffState.hasAdd H dc)) (not (diffState.hasRemove H dc)) (= (stackLen H (oStack dc)) (- (stackLen H0 (oStack dc)) 1)) (= (stackLen H (nStack dc)) (- (stackLen H0 (nStack dc)) 1)) (= (isNil (diffState.curKey H dc)) (or (deepEq (yVal (topOf H0 (oStack dc))) (yVal (topOf H0 (nStack dc)))) (isNil (yKey (topOf H0 (oStack dc)))))) (=> (not (isNil (diffState.curKey H dc))) (and (= (diffState.curKey H dc) (yKey (topOf H0 (oStack dc)))) (= (diffState.addedValue H dc) (yVal (topOf H0 (nStack dc)))) (= (diffState.removedValue H dc) (yVal (topOf H0 (oStack dc))))))))))
 //@ ensures samelink [C15] (=> (and (> (stackLen H0 (oStack dc)) 0) (> (stackLen H0 (nStack dc)) 0) (not (isYield (topOf H0 (oStack dc)))) (= (S_iterItem.considerLink (topOf H0 (oStack dc))) (S_iterItem.considerLink (topOf H0 (nStack dc))))) (and (= err anil) (= (G.loads H) (G.loads H0)) (= (stackLen H (oStack dc)) (- (stackLen H0 (oStack dc)) 1)) (= (stackLen H (nStack dc)) (- (stackLen H0 (nStack dc)) 1)) (isNil (diffState.addedLink H dc)) (isNil (diffState.removedLink H dc)) (isNil (diffState.curKey H dc))))
 //@ ensures cfg (DiffCfg H m dc)
+
+//@ abstract param:(*Mast).diff.entryCb (added removed key addedValue removedValue) -> (keepGoing err)
+//@ pure
+//@ abstract param:(*Mast).diff.linkCb (removed link) -> (keepGoing err)
+//@ pure
+
+// GlobalsOK2: the diff sentinel error is a distinct, comparable, non-nil error
+//@ smt (define-fun DiffGlobalsOK ((h Heap)) Bool (and (isErr (G.ErrNoMoreDiffs h)) (comparable (a.tid (G.ErrNoMoreDiffs h)))))
+
+//@ func (*Mast).diff
+//@ tags C06 C07 C12 C15
+//@ modifies W G.loads Map.Int.Any Map.Int.Any.has iterItemStack.* Arr.S_iterItem diffState.* iterItem.*@fresh entry.*@fresh Arr.Any@fresh Node.*@fresh mastNode.*@fresh Box.Bytes@fresh
+//@ requires cfg (and (> m 0) (not (= (Mast.keyOrder H m) 0)) (not (= (Mast.keyLayer H m) 0)) (>= oldMast 0) (=> (> oldMast 0) (not (= (Mast.keyLayer H oldMast) 0))) (DiffGlobalsOK H))
+//@ requires closure [T3] (AllOK H)
+//@ ensures readonly [C06 C07 C12] (NodesSame H0 H W0)
+//@ ensures sameversion [C15] (=> (and (> oldMast 0) (not (isNil (Mast.root H0 m))) (= (Mast.root H0 m) (Mast.root H0 oldMast))) (and (= err anil) (= (G.loads H) (G.loads H0))))
+//@ loop 1 invariant sameversion [C15] (=> (and (> oldMast 0) (not (isNil (Mast.root H0 m))) (= (Mast.root H0 m) (Mast.root H0 oldMast))) (and (= (G.loads H) (G.loads H0)) (or (and (= (stackLen H (oStack dc)) 0) (= (stackLen H (nStack dc)) 0)) (and (= (stackLen H (oStack dc)) 1) (= (stackLen H (nStack dc)) 1) (not (isYield (topOf H (oStack dc)))) (= (S_iterItem.considerLink (topOf H (oStack dc))) (S_iterItem.considerLink (topOf H (nStack dc))))))))
+//@ loop 1 invariant cfg (and (> dc W0) (DiffCfg H m dc) (DiffGlobalsOK H) (NodesSame H0 H W0) (= (diffState.oldMast H dc) oldMast))
+//@ loop 1 invariant stacks [T3] (and (StackOK H (oStack dc)) (StackOK H (nStack dc)) (AllOK H))
+
+//@ func (*Mast).DiffIter
+//@ tags C06 C12 C15
+//@ modifies W G.loads Map.Int.Any Map.Int.Any.has iterItemStack.* Arr.S_iterItem diffState.* iterItem.*@fresh entry.*@fresh Arr.Any@fresh Node.*@fresh mastNode.*@fresh Box.Bytes@fresh
+//@ requires cfg (and (> m 0) (not (= (Mast.keyOrder H m) 0)) (not (= (Mast.keyLayer H m) 0)) (>= oldMast 0) (=> (> oldMast 0) (not (= (Mast.keyLayer H oldMast) 0))) (DiffGlobalsOK H))
+//@ requires closure [T3] (AllOK H)
+//@ ensures readonly [C06 C12] (NodesSame H0 H W0)
+
+//@ func (*Mast).DiffLinks
+//@ tags C07 C12 C15
+//@ modifies W G.loads Map.Int.Any Map.Int.Any.has iterItemStack.* Arr.S_iterItem diffState.* iterItem.*@fresh entry.*@fresh Arr.Any@fresh Node.*@fresh mastNode.*@fresh Box.Bytes@fresh
+//@ requires cfg (and (> m 0) (not (= (Mast.keyOrder H m) 0)) (not (= (Mast.keyLayer H m) 0)) (>= oldMast 0) (=> (> oldMast 0) (not (= (Mast.keyLayer H oldMast) 0))) (DiffGlobalsOK H))
+//@ requires closure [T3] (AllOK H)
+//@ ensures readonly [C07 C12] (NodesSame H0 H W0)
+
+//@ func (*Mast).StartDiff
+//@ tags C06 C12
+//@ modifies W Map.Int.Any Map.Int.Any.has Arr.S_iterItem@fresh diffState.*@fresh iterItemStack.*@fresh DiffCursor.*@fresh
+//@ requires nn (> m 0)
+//@ ensures res [C06] (and (= err anil) (> result0 W0) (not (DiffCursor.done H result0)) (= (DiffCursor.m H result0) m) (> (DiffCursor.diffState H result0) W0))
+
+//@ func (*DiffCursor).NextEntry
+//@ tags C06 C12
+//@ modifies W G.loads Map.Int.Any Map.Int.Any.has iterItemStack.* Arr.S_iterItem diffState.* DiffCursor.done iterItem.*@fresh entry.*@fresh Arr.Any@fresh Node.*@fresh mastNode.*@fresh Box.Bytes@fresh
+//@ requires cfg (and (> dc 0) (> (DiffCursor.diffState H dc) 0) (DiffCfg H (DiffCursor.m H dc) (DiffCursor.diffState H dc)) (DiffGlobalsOK H))
+//@ requires closure [T3] (AllOK H)
+//@ ensures done [C06] (=> (DiffCursor.done H0 dc) (= err (G.ErrNoMoreDiffs H0)))
+//@ ensures kind [C06] (=> (= err anil) (and (not (isNil (S_Diff.Key result0))) (or (= (S_Diff.Type result0) 0) (= (S_Diff.Type result0) 1) (= (S_Diff.Type result0) 2))))
+//@ ensures readonly [C06 C12] (NodesSame H0 H W0)
+//@ loop 1 invariant cfg (and (> dc 0) (> (DiffCursor.diffState H dc) 0) (DiffCfg H (DiffCursor.m H dc) (DiffCursor.diffState H dc)) (DiffGlobalsOK H) (NodesSame H0 H W0))
+//@ loop 1 invariant stacks [T3] (and (StackOK H (oStack (DiffCursor.diffState H dc))) (StackOK H (nStack (DiffCursor.diffState H dc))) (AllOK H))
